@@ -27,6 +27,10 @@ COUNTERS = [
      'datapackage-bytes': 'a.b', 'datapackage-rowcount': 'c.d', 'datapackage-hash': 'integrity.md5'},
     {'resource-hash': None, 'datapackage-hash': None},
     {'resource-bytes': None, 'resource-rowcount': None, 'datapackage-bytes': None, 'datapackage-rowcount': None},
+    # a per-resource counter switched off while the package total stays on, and the byte counters off while the hash stays on
+    {'resource-rowcount': None},
+    {'resource-bytes': None},
+    {'resource-bytes': None, 'datapackage-bytes': None},
 ]
 
 
